@@ -94,7 +94,7 @@ Theorem C14_req_idempotent : forall v deps declared declared',
   (forall n, In n declared \/ In n (map dname (add_deps v deps declared)) -> In n declared') ->
   add_deps v deps declared' = [] /\
   (forall g dry text, req_write v g dry text declared' deps = (WNone, text)) /\
-  (forall g dry text defined, cfg_write v g dry text defined declared' deps = (WNone, text)).
+  (forall lv g dry text defined, cfg_write v lv g dry text defined declared' deps = (WNone, text)).
 Proof.
   intros v deps declared declared' H. pose proof (add_deps_idempotent v deps declared declared' H) as E.
   repeat split; intros; unfold req_write, cfg_write; now rewrite E.
@@ -115,7 +115,7 @@ Definition C14_declared_untouched_statement (v : name_cmp) : Prop :=
       (forall declared deps,
          (forall d, In d deps -> exists n, In n declared /\ canon n = canon (dname d)) ->
          (forall g dry text, req_write v g dry text declared deps = (WNone, text)) /\
-         (forall g dry text defined, cfg_write v g dry text defined declared deps = (WNone, text))) /\
+         (forall lv g dry text defined, cfg_write v lv g dry text defined declared deps = (WNone, text))) /\
       (forall declared deps, add_deps v deps declared = needed_spec (map canon declared) deps)
   | Exact =>
       exists declared deps text,
@@ -149,37 +149,37 @@ Proof. vm_compute. repeat split; reflexivity. Qed.
 
 (** [k] is the index of the last line of the install_requires value; [defined] is configparser's value of
     options.install_requires (oracle): its last line is the stripped text of line [k]. *)
-Theorem C14_cfg_insert_after_last : forall v g text defined declared deps k,
+Theorem C14_cfg_insert_after_last : forall v lv g text defined declared deps k,
+  let L := cfg_lines lv text in      (* the lines the writer works on: as read, or with the last line terminated *)
   (1 < length (split_on LF defined))%nat ->
-  (k < length (readlines text))%nat ->
-  strip (nth k (readlines text) []) = last (split_on LF defined) [] ->
-  unique_stripped (readlines text) k = true ->
+  (k < length L)%nat ->
+  strip (nth k L []) = last (split_on LF defined) [] ->
+  unique_stripped L k = true ->
   let needed := add_deps v deps declared in
-  (needed = [] -> cfg_write v g false text (Some defined) declared deps = (WNone, text)) /\
+  (needed = [] -> cfg_write v lv g false text (Some defined) declared deps = (WNone, text)) /\
   (needed <> [] ->
-     cfg_write v g false text (Some defined) declared deps =
-       (WSome [], writelines (cfg_after_spec (readlines text) k needed)) /\
-     firstn (S k) (cfg_after_spec (readlines text) k needed) = firstn (S k) (readlines text) /\
-     skipn (S k + length needed) (cfg_after_spec (readlines text) k needed) = skipn (S k) (readlines text)).
+     cfg_write v lv g false text (Some defined) declared deps = (WSome [], writelines (cfg_after_spec L k needed)) /\
+     firstn (S k) (cfg_after_spec L k needed) = firstn (S k) L /\
+     skipn (S k + length needed) (cfg_after_spec L k needed) = skipn (S k) L).
 Proof.
-  intros v g text defined declared deps k Hnl Hk Hlast Hu needed. split.
+  intros v lv g text defined declared deps k L Hnl Hk Hlast Hu needed. split.
   - intros Hn. unfold cfg_write. fold needed. now rewrite Hn.
   - intros Hn.
-    assert (Hlen : length (firstn (S k) (readlines text)) = S k) by (rewrite firstn_length; lia).
+    assert (Hlen : length (firstn (S k) L) = S k) by (rewrite firstn_length; lia).
     repeat split.
     + unfold cfg_write. fold needed. destruct needed as [|e r] eqn:E; [congruence|]. rewrite <- E.
-      unfold cfg_add_to_file.
+      unfold cfg_add_to_file. fold L.
       destruct defined as [|c df]; [cbn in Hnl; lia|].
       rewrite (cfg_build_new_lines_eq _ _ _ k Hnl Hk Hlast Hu).
       unfold cfg_after_spec at 1.
-      destruct (firstn (S k) (readlines text)) as [|l0 rest] eqn:Ef; [cbn in Hlen; lia|].
+      destruct (firstn (S k) L) as [|l0 rest] eqn:Ef; [cbn in Hlen; lia|].
       cbn [app negb andb]. destruct g; reflexivity.
     + unfold cfg_after_spec. rewrite firstn_app, Hlen, Nat.sub_diag, firstn_O, app_nil_r.
       apply firstn_all2. lia.
     + unfold cfg_after_spec.
-      etransitivity; [|apply (skipn_insert (firstn (S k) (readlines text))
-                                (map (fun d => leading_ws (nth k (readlines text) []) ++ dline d ++ [LF]) needed)
-                                (skipn (S k) (readlines text)))].
+      etransitivity; [|apply (skipn_insert (firstn (S k) L)
+                                (map (fun d => leading_ws (nth k L []) ++ dline d ++ [LF]) needed)
+                                (skipn (S k) L))].
       f_equal. rewrite map_length, Hlen. reflexivity.
 Qed.
 Print Assumptions C14_cfg_insert_after_last.
@@ -190,7 +190,8 @@ Example C14_cfg_insert_after_last_example :
   let deps := [ {| dname := [115;101;99;117;114;105;116;121]%N; dline := [115;101;99;117;114;105;116;121;61;61;49;46;51;46;49]%N |} ] in
   (1 < length (split_on LF defined))%nat /\ (3 < length (readlines text))%nat /\
   strip (nth 3 (readlines text) []) = last (split_on LF defined) [] /\ unique_stripped (readlines text) 3 = true /\
-  snd (cfg_write Canonical DryGuarded false text (Some defined) [[102;111;111]%N; [98;97;114]%N] deps)
+  cfg_lines LastLineAsIs text = cfg_lines LastLineTerminated text /\
+  snd (cfg_write Canonical LastLineAsIs DryGuarded false text (Some defined) [[102;111;111]%N; [98;97;114]%N] deps)
     = [91;111;112;116;105;111;110;115;93;10;105;110;115;116;97;108;108;95;114;101;113;117;105;114;101;115;32;61;10;32;32;32;32;102;111;111;10;32;32;32;32;98;97;114;62;61;49;10;32;32;32;32;115;101;99;117;114;105;116;121;61;61;49;46;51;46;49;10;10;91;120;93;10;97;61;49;10]%N.
 Proof. vm_compute. repeat split; lia. Qed.
 
@@ -201,31 +202,68 @@ Theorem C14_cfg_refuted_dupline : exists text defined declared deps k,
   strip (nth k (readlines text) []) = last (split_on LF defined) [] /\
   unique_stripped (readlines text) k = false /\
   add_deps requirement_name_cmp deps declared = deps /\
-  snd (cfg_write requirement_name_cmp cfg_writer_guard false text (Some defined) declared deps)
+  snd (cfg_write requirement_name_cmp cfg_last_line_form cfg_writer_guard false text (Some defined) declared deps)
     <> writelines (cfg_after_spec (readlines text) k deps).
 Proof.
   exists [91;111;112;116;105;111;110;115;93;10;115;101;116;117;112;95;114;101;113;117;105;114;101;115;32;61;10;32;32;32;32;98;97;114;62;61;49;10;105;110;115;116;97;108;108;95;114;101;113;117;105;114;101;115;32;61;10;32;32;32;32;102;111;111;10;32;32;32;32;98;97;114;62;61;49;10]%N, [10;102;111;111;10;98;97;114;62;61;49]%N,
          [[102;111;111]%N; [98;97;114]%N], [ {| dname := [115;101;99;117;114;105;116;121]%N; dline := [115;101;99;117;114;105;116;121;61;61;49;46;51;46;49]%N |} ], 5%nat.
-  destruct requirement_name_cmp, cfg_writer_guard; vm_compute; repeat split; try lia; discriminate.
+  destruct requirement_name_cmp, cfg_last_line_form, cfg_writer_guard; vm_compute; repeat split; try lia; discriminate.
 Qed.
 Print Assumptions C14_cfg_refuted_dupline.
 
-(** The last dependency line is the last line of the file and has no newline: the new requirement is glued to it. *)
-Theorem C14_cfg_refuted_no_final_newline : exists text defined declared deps,
-  snd (cfg_write requirement_name_cmp cfg_writer_guard false text (Some defined) declared deps)
-    = [91;111;112;116;105;111;110;115;93;10;105;110;115;116;97;108;108;95;114;101;113;117;105;114;101;115;32;61;10;32;32;32;32;102;111;111;10;32;32;32;32;98;97;114;32;32;32;32;115;101;99;117;114;105;116;121;61;61;49;46;51;46;49;10]%N.
+(** A last line without newline.  Pinned form: the lines are used as read, so when the last dependency line is the
+    last line of the file the first new requirement is glued to it.  Repaired form: the writer works on the text with
+    a final newline supplied — the old last line is only terminated, every line of the rewritten file (old and new)
+    ends with a newline, so each inserted requirement is on a line of its own. *)
+Definition C14_cfg_last_line_statement (lv : cfg_last_line) : Prop :=
+  match lv with
+  | LastLineTerminated =>
+      forall text, text <> [] ->
+        let L := cfg_lines lv text in
+        concat L = ensure_final_lf (univ_nl text) /\
+        Forall (fun l => ends_lf l = true) L /\
+        (forall k needed, Forall (fun l => ends_lf l = true) (cfg_after_spec L k needed))
+  | LastLineAsIs =>
+      exists text defined declared deps,
+        snd (cfg_write requirement_name_cmp lv cfg_writer_guard false text (Some defined) declared deps)
+          = [91;111;112;116;105;111;110;115;93;10;105;110;115;116;97;108;108;95;114;101;113;117;105;114;101;115;32;61;10;32;32;32;32;102;111;111;10;32;32;32;32;98;97;114;32;32;32;32;115;101;99;117;114;105;116;121;61;61;49;46;51;46;49;10]%N
+  end.
+Lemma C14_cfg_last_line_all lv : C14_cfg_last_line_statement lv.
 Proof.
-  exists [91;111;112;116;105;111;110;115;93;10;105;110;115;116;97;108;108;95;114;101;113;117;105;114;101;115;32;61;10;32;32;32;32;102;111;111;10;32;32;32;32;98;97;114]%N, [10;102;111;111;10;98;97;114]%N, [[102;111;111]%N; [98;97;114]%N],
-         [ {| dname := [115;101;99;117;114;105;116;121]%N; dline := [115;101;99;117;114;105;116;121;61;61;49;46;51;46;49]%N |} ].
-  destruct requirement_name_cmp, cfg_writer_guard; vm_compute; reflexivity.
+  destruct lv; cbn [C14_cfg_last_line_statement].
+  - exists [91;111;112;116;105;111;110;115;93;10;105;110;115;116;97;108;108;95;114;101;113;117;105;114;101;115;32;61;10;32;32;32;32;102;111;111;10;32;32;32;32;98;97;114]%N, [10;102;111;111;10;98;97;114]%N, [[102;111;111]%N; [98;97;114]%N],
+           [ {| dname := [115;101;99;117;114;105;116;121]%N; dline := [115;101;99;117;114;105;116;121;61;61;49;46;51;46;49]%N |} ].
+    destruct requirement_name_cmp, cfg_writer_guard; vm_compute; reflexivity.
+  - intros text Ht. cbv zeta. set (L := cfg_lines LastLineTerminated text).
+    assert (Hu : univ_nl text <> []) by (intros H; apply Ht, univ_nl_nil, H).
+    assert (HL : L = readlines_lf (ensure_final_lf (univ_nl text))) by (apply cfg_lines_terminated, Ht).
+    assert (HF : Forall (fun l => ends_lf l = true) L)
+      by (rewrite HL; apply readlines_lf_all_end, ends_lf_ensure, Hu).
+    repeat split.
+    + rewrite HL. apply concat_readlines_lf.
+    + exact HF.
+    + intros k needed. unfold cfg_after_spec. rewrite !Forall_app. repeat split.
+      * now apply Forall_firstn.
+      * apply Forall_forall. intros l Hin. apply in_map_iff in Hin. destruct Hin as [d [<- _]].
+        rewrite app_assoc. apply ends_lf_snoc.
+      * now apply Forall_skipn.
 Qed.
-Print Assumptions C14_cfg_refuted_no_final_newline.
+Theorem C14_cfg_last_line : C14_cfg_last_line_statement cfg_last_line_form.
+Proof. exact (C14_cfg_last_line_all cfg_last_line_form). Qed.
+Print Assumptions C14_cfg_last_line.
+
+Example C14_cfg_last_line_example :
+  let text := [91;111;112;116;105;111;110;115;93;10;105;110;115;116;97;108;108;95;114;101;113;117;105;114;101;115;32;61;10;32;32;32;32;102;111;111;10;32;32;32;32;98;97;114]%N in
+  let deps := [ {| dname := [115;101;99;117;114;105;116;121]%N; dline := [115;101;99;117;114;105;116;121;61;61;49;46;51;46;49]%N |} ] in
+  snd (cfg_write Canonical LastLineTerminated DryGuarded false text (Some [10;102;111;111;10;98;97;114]%N) [[102;111;111]%N; [98;97;114]%N] deps)
+    = [91;111;112;116;105;111;110;115;93;10;105;110;115;116;97;108;108;95;114;101;113;117;105;114;101;115;32;61;10;32;32;32;32;102;111;111;10;32;32;32;32;98;97;114;10;32;32;32;32;115;101;99;117;114;105;116;121;61;61;49;46;51;46;49;10]%N.
+Proof. vm_compute. reflexivity. Qed.
 
 (** Comma-separated list on the key line: the store declares no name at all (the parser offers the whole value
     "foo, security==1.3.1," to `packaging`, which rejects it), so a second write appends the requirement again;
     with two dependencies the writer raises after having written the file. *)
 Theorem C14_cfg_refuted_inline_list : exists text defined dep1 dep2,
-  let run t df ds := cfg_write requirement_name_cmp cfg_writer_guard false t (Some df) [] ds in
+  let run t df ds := cfg_write requirement_name_cmp cfg_last_line_form cfg_writer_guard false t (Some df) [] ds in
   snd (run text defined [dep1]) = [91;111;112;116;105;111;110;115;93;10;105;110;115;116;97;108;108;95;114;101;113;117;105;114;101;115;32;61;32;102;111;111;44;32;115;101;99;117;114;105;116;121;61;61;49;46;51;46;49;44;10]%N /\
   snd (run (snd (run text defined [dep1])) [102;111;111;44;32;115;101;99;117;114;105;116;121;61;61;49;46;51;46;49;44]%N [dep1])
      = [91;111;112;116;105;111;110;115;93;10;105;110;115;116;97;108;108;95;114;101;113;117;105;114;101;115;32;61;32;102;111;111;44;32;115;101;99;117;114;105;116;121;61;61;49;46;51;46;49;44;44;32;115;101;99;117;114;105;116;121;61;61;49;46;51;46;49;44;10]%N /\
@@ -233,7 +271,7 @@ Theorem C14_cfg_refuted_inline_list : exists text defined dep1 dep2,
 Proof.
   exists [91;111;112;116;105;111;110;115;93;10;105;110;115;116;97;108;108;95;114;101;113;117;105;114;101;115;32;61;32;102;111;111;10]%N, [102;111;111]%N, {| dname := [115;101;99;117;114;105;116;121]%N; dline := [115;101;99;117;114;105;116;121;61;61;49;46;51;46;49]%N |},
          {| dname := [100;101;102;117;115;101;100;120;109;108]%N; dline := [100;101;102;117;115;101;100;120;109;108;61;61;48;46;55;46;49]%N |}.
-  destruct requirement_name_cmp, cfg_writer_guard; vm_compute; repeat split; discriminate.
+  destruct requirement_name_cmp, cfg_last_line_form, cfg_writer_guard; vm_compute; repeat split; discriminate.
 Qed.
 Print Assumptions C14_cfg_refuted_inline_list.
 
@@ -303,26 +341,27 @@ Definition C14_dry_run_statement (g : dry_guard) : Prop :=
       forall v text declared deps,
         (snd (req_write v g true text declared deps) = text /\
          fst (req_write v g true text declared deps) = fst (req_write v g false text declared deps)) /\
-        (forall defined,
-         snd (cfg_write v g true text defined declared deps) = text /\
-         fst (cfg_write v g true text defined declared deps) = fst (cfg_write v g false text defined declared deps))
+        (forall lv defined,
+         snd (cfg_write v lv g true text defined declared deps) = text /\
+         fst (cfg_write v lv g true text defined declared deps) = fst (cfg_write v lv g false text defined declared deps))
   | DryIgnored =>
       exists v text declared deps defined,
-        snd (req_write v g true text declared deps) <> text /\ snd (cfg_write v g true text defined declared deps) <> text
+        snd (req_write v g true text declared deps) <> text /\
+        forall lv, snd (cfg_write v lv g true text defined declared deps) <> text
   end.
 Lemma C14_dry_run_all g : C14_dry_run_statement g.
 Proof.
   destruct g; cbn [C14_dry_run_statement].
-  - intros v text declared deps. split; [|intros defined].
+  - intros v text declared deps. split; [|intros lv defined].
     + unfold req_write. destruct (add_deps v deps declared) as [|e r]; [split; reflexivity|].
       unfold req_add_to_file. destruct (fix_last (readlines text)); split; reflexivity.
     + unfold cfg_write. destruct (add_deps v deps declared) as [|e r]; [split; reflexivity|].
       unfold cfg_add_to_file. destruct defined as [[|c df]|]; try (split; reflexivity).
-      destruct (cfg_build_new_lines (readlines text) (c :: df) (e :: r)) as [| |nl [|l ls]]; try (split; reflexivity).
+      destruct (cfg_build_new_lines (cfg_lines lv text) (c :: df) (e :: r)) as [| |nl [|l ls]]; try (split; reflexivity).
       cbn [negb]. destruct (negb nl && (1 <? length (e :: r))%nat); split; reflexivity.
   - exists Canonical, [91;111;112;116;105;111;110;115;93;10;105;110;115;116;97;108;108;95;114;101;113;117;105;114;101;115;32;61;10;32;32;32;32;102;111;111;10]%N, [[102;111;111]%N],
            [ {| dname := [115;101;99;117;114;105;116;121]%N; dline := [115;101;99;117;114;105;116;121;61;61;49;46;51;46;49]%N |} ], (Some [10;102;111;111]%N).
-    vm_compute. split; discriminate.
+    split; [vm_compute; discriminate|]. intros lv. destruct lv; vm_compute; discriminate.
 Qed.
 Theorem C14_dry_run_req : C14_dry_run_statement req_writer_guard.
 Proof. exact (C14_dry_run_all req_writer_guard). Qed.
